@@ -137,18 +137,18 @@ def s_C18(tier, rng):
 ALLMON = ["C01", "C02", "C04", "C06", "C07", "C08", "C10", "C12", "C13", "C14", "C16", "C18", "EXP"]
 
 PROPS = {
-    "C01": {"translate": ["arena", "lockfree"], "streams": s_C01, "monitors": ["C01"], "conc_monitors": ["C03", "C05", "C16"]},
-    "C02": {"streams": s_C02, "monitors": ["C02"], "props_extra": ["C02H"], "conc_monitors": ["C03"]},
-    "C04": {"streams": s_C04, "monitors": ["C04"], "conc_monitors": ["C05", "C04", "PANIC"], "props_extra": ["C04D", "C05R"], "orderings": True, "sreplay": True, "translate": ["arena", "lockfree"]},
+    "C01": {"translate": ["arena", "lockfree", "rodeo", "threaded"], "streams": s_C01, "monitors": ["C01"], "conc_monitors": ["C03", "C05", "C16"]},
+    "C02": {"translate": ["rodeo", "threaded"], "streams": s_C02, "monitors": ["C02"], "props_extra": ["C02H"], "conc_monitors": ["C03"]},
+    "C04": {"translate": ["arena", "lockfree", "rodeo"], "streams": s_C04, "monitors": ["C04"], "conc_monitors": ["C05", "C04", "PANIC"], "props_extra": ["C04D", "C05R"], "orderings": True, "sreplay": True, },
     "C06": {"streams": s_C06, "monitors": ["C06", "C01", "C02"], "props_extra": ["C06B"]},
-    "C07": {"streams": s_C07, "monitors": ["C07"], "conc_monitors": ["C07"]},
-    "C08": {"streams": s_C08, "monitors": ["C08"], "translate": ["arena", "lockfree"]},
-    "C10": {"streams": s_C10, "monitors": ["C10"]},
+    "C07": {"translate": ["keys", "rodeo", "threaded"], "streams": s_C07, "monitors": ["C07"], "conc_monitors": ["C07"]},
+    "C08": {"translate": ["arena", "lockfree"], "streams": s_C08, "monitors": ["C08"], },
+    "C10": {"translate": ["rodeo", "threaded"], "streams": s_C10, "monitors": ["C10"]},
     "C12": {"streams": s_C12, "monitors": ["C12", "C01", "C02"]},
-    "C13": {"streams": s_C13, "monitors": ["C13", "C01", "C02", "C07", "C08", "C10"]},
+    "C13": {"translate": ["arena", "rodeo"], "streams": s_C13, "monitors": ["C13", "C01", "C02", "C07", "C08", "C10"]},
     "C14": {"streams": s_C14, "monitors": ["C14", "C01", "C02", "C10", "EXP"]},
     "C15": {"streams": s_C15, "monitors": ALLMON},
-    "C16": {"streams": s_C16, "monitors": ["C16"], "conc_monitors": ["C16"], "forwarding": True, "facts": "forwarding", "props_extra": ["C16F"]},
+    "C16": {"translate": ["rodeo", "threaded"], "streams": s_C16, "monitors": ["C16"], "conc_monitors": ["C16"], "forwarding": True, "facts": "forwarding", "props_extra": ["C16F"]},
     "C17": {"streams": s_C17, "monitors": ["C17"], "forwarding": True, "facts": "forwarding", "props_extra": ["C17F"]},
     "C18": {"streams": s_C18, "monitors": ["C18"]},
 }
